@@ -33,6 +33,7 @@ type vfEv struct {
 	M bool  `json:"m,omitempty"`
 	T int64 `json:"t,omitempty"` // wall clock at this event: seconds since 00:00 UTC of day 0 (may exceed a day)
 	N int64 `json:"n,omitempty"` // nanosecond part of the wall clock
+	F bool  `json:"f,omitempty"` // (valid frame, harness parser) telemetry says a flat-field correction ran 1 s ago
 }
 
 type vfRecCfg struct {
@@ -266,6 +267,7 @@ func vfDrive(c vfRecCase, perEvent func(run *vfRecRun, i int)) *vfRecRun {
 	}
 	level := false // state of the toggling pixel in the last accepted frame
 	src := cptvframe.NewFrame(cam)
+	ffc := false
 	fill := func(id int, bad bool, lvl bool) {
 		put := func(i int, v uint16) { binary.LittleEndian.PutUint16(raw[vfRawHdr+2*i:], v) }
 		if c.Lepton {
@@ -288,6 +290,9 @@ func vfDrive(c vfRecCase, perEvent func(run *vfRecRun, i int)) *vfRecRun {
 			binary.LittleEndian.PutUint32(raw[1:], uint32(int32(id)))
 			binary.LittleEndian.PutUint32(raw[5:], uint32(60000+111*len(run.accepted)))
 			binary.LittleEndian.PutUint32(raw[9:], 0)
+			if ffc {
+				binary.LittleEndian.PutUint32(raw[9:], uint32(60000+111*len(run.accepted)-1000))
+			}
 		}
 		i := 0
 		for y := 0; y < c.Cfg.H; y++ {
@@ -324,7 +329,9 @@ func vfDrive(c vfRecCase, perEvent func(run *vfRecRun, i int)) *vfRecRun {
 					level = !level
 				}
 				run.intended[i] = e.M
+				ffc = e.F
 				fill(id, false, level)
+				ffc = false
 				run.accepted = append(run.accepted, i)
 				run.idOf[i] = id
 				if c.ProcessFrame {
@@ -429,6 +436,7 @@ type vfRecGenOpt struct {
 	maxEv                                      int
 	cont                                       int // 0 never, 1 sometimes, 2 always
 	variants                                   bool
+	ffc                                        bool // flat-field-correction periods (frames whose telemetry says so) in the streams
 	scale                                      bool // sometimes a configuration at the scale the daemon ships with (9 fps, max-secs in minutes)
 }
 
@@ -526,6 +534,15 @@ func vfGenEvents(t *rapid.T, c vfRecCfg, o vfRecGenOpt) []vfEv {
 	}
 	nseg := rapid.IntRange(1, 12).Draw(t, "segments")
 	for s := 0; s < nseg && len(ev) < o.maxEv; s++ {
+		if o.ffc && rapid.IntRange(0, 11).Draw(t, "ffcseg") == 0 {
+			// an FFC period (any length in frames, the scene may keep moving), then the frames after it
+			for i := rapid.SampledFrom([]int{1, 2, 3, ring, ring + 2, 12}).Draw(t, "ffclen"); i > 0; i-- {
+				ev = append(ev, stamp(vfEv{K: vfEvFrame, M: rapid.Bool().Draw(t, "ffcm"), F: true}))
+			}
+			addFrames(rapid.IntRange(0, 3).Draw(t, "afterffc"), false)
+			addFrames(trig+rapid.IntRange(0, 2).Draw(t, "ffcrun"), true)
+			continue
+		}
 		switch rapid.IntRange(0, 11).Draw(t, "seg") {
 		case 0, 1: // still frames, length around the ring size
 			addFrames(rapid.SampledFrom([]int{0, 1, 2, ring - 1, ring, ring + 1, ring + 2, minF, minF + 1}).Draw(t, "still")%40, false)
